@@ -176,7 +176,8 @@ SAMPLE_TOKENS = [("ID", "zz"), ("INT", "7"), ("FLOAT", "0.5"), ("STRING", '"s"')
                  ("WEIGHTED", "weighted"), ("RETURN", "return"), ("AND", "and"), ("OR", "or")]
 
 MUTATIONS = ["delete", "duplicate", "swap-adjacent", "swap-distant", "insert-token", "insert-illegal", "prefix-junk",
-             "suffix-junk", "replace-token", "broken-def-in-front", "two-definitions", "truncate", "glue-illegal", "separator-before-closer"]
+             "suffix-junk", "replace-token", "broken-def-in-front", "two-definitions", "truncate", "glue-illegal", "separator-before-closer",
+             "unicode-lookalike"]
 
 
 @st.composite
@@ -236,6 +237,21 @@ def mutate_tokens(draw, toks, other_toks=None):
                 toks[i] = ("GLUED", tx + ch)
             else:
                 toks[i] = ("GLUED", ch + tx)
+        elif kind == "unicode-lookalike":
+            # a token replaced by characters that merely LOOK like it (fullwidth forms, compatibility symbols): they belong to
+            # no token of the language; any Unicode "normalisation" before lexing would turn them into the real thing
+            ty, tx = toks[i]
+            if ty == "STRING":
+                continue
+            special = {"==": "\u2a75", "in": "\u33cc", "2": "\u00b2", "1": "\u00b9", "3": "\u00b3", "<=": "\u2264", ">=": "\u2265",
+                       "!=": "\u2260", "-": "\u2212", "{": "\ufe5b", "}": "\ufe5c", "(": "\ufe59", ")": "\ufe5a", ",": "\uff0c", ":": "\ufe55"}
+            if tx in special and draw(st.booleans()):
+                new = special[tx]
+            else:
+                j = draw(st.integers(0, len(tx) - 1))
+                full = "".join(chr(ord(c) + 0xFEE0) if 0x21 <= ord(c) <= 0x7E else c for c in tx)
+                new = full if draw(st.booleans()) else tx[:j] + full[j] + tx[j + 1:]
+            toks[i] = ("LOOKALIKE", new)
         elif kind == "separator-before-closer":
             closers = [j for j, (t, _) in enumerate(toks) if t in ("RPAREN", "RBRACE", "LBRACE", "RETURN", "IF")]
             if not closers:
